@@ -263,7 +263,8 @@ def replay_live(case, path) -> int:
     evs = []
     obs = iter(r[1])
     for pid, lens, rd in hist:
-        held[pid] = lens
+        if pid != 0:  # 0 = Codebase.aggregate()
+            held[pid] = lens
         if rd:
             o = next(obs)
             prof = [0, 0, 0, 0]
